@@ -66,7 +66,8 @@ func TestCheck(t *testing.T) {
 			"distinct_nontrivial = distinct (abstract state, mode family) pairs + distinct (mutation class, kind of the mutated record) pairs",
 		Assumptions: []string{
 			"builder timestamps (time.Now) and crypto nonces are not controlled: histories are compared on observable state only, never on raw bytes of independently built records",
-			"acceptance by a fully validating list with recomputed id after editing unauthenticated wrapper fields (acceptor fields) is legitimate and only counted (info_*)",
+			"acceptance by a fully validating list with recomputed id after editing unauthenticated wrapper fields (acceptor fields) is legitimate and only counted (info_*); so are a second valid encoding of the network key and a changed acceptor timestamp (covered by no signature) on the non-validating list",
+			"states / transitions / distinct counts are reproducible; the number of evaluations varies by a fraction of a percent between runs because byte mutations identical to the original byte or to another variant of the same byte are skipped and record bytes contain fresh nonces",
 			"per-byte / per-length / per-id-character / per-signature-byte sweeps (node observer lists) run on the seed histories, on every history up to depth 1 from the root (thorough: depth 2 from the root and from the seeds) and, beyond, on the first history in BFS order ending in each record kind (thorough: plus every 5th history of a level); the structural mutation classes run on every history, for node and owner observers",
 		},
 		Budget: func(tier string) time.Duration {
